@@ -1,6 +1,7 @@
 (* C17 — Stat and space accounting are exact. *)
 From KV Require Import Bytes GenConsts Chunk Record Engine Script AMapLemmas EngineInv EngineBatch
   EngineRefine EngineLog EngineRecover EngineAcc.
+From KV Require EngineLimit.
 Open Scope N_scope.
 
 (* what Stat reports, in terms of the state *)
@@ -56,6 +57,51 @@ Proof.
   exists m. split; [exact HR|]. split; [apply (db_keynum_spec _ _ HR)|exact Hm].
 Qed.
 Print Assumptions C17_keynum_exact.
+
+(* Data files respect the size limit.  From an empty directory, under ANY configuration, at every step of every
+   history of Put / Delete / Get / ListKeys / Fold / Stat / Sync / Merge and batches of any length (keys and values
+   of up to 128 MiB together per record, 64-bit batch ids; no restart, which may change the limit): every data file -
+   the active one and every rotated one - is no longer than DataFileSize, or holds a single record (plus, for a
+   batch, its sealing record).  The heart is estimate_covers: what writeToBuf appends for a record - block-tail
+   padding, one 7-byte header per chunk, the encoded record - never exceeds GetLogRecordDiskSize, at any offset
+   (the estimate counts one header per 32768 bytes, the writer needs one per 32761: the bound on the record length
+   is what makes it true, and it is explicit). *)
+Theorem C17_data_files_respect_the_size_limit :
+  forall c ops d0 k0 e0 d k rs evs,
+  db_open c empty_disk = (OpenOk d0 k0, e0) -> Forall EngineLimit.op_small ops -> run (d0, k0) ops = ((d, k), rs, evs) ->
+  (lf_size (d_active d) <= c_fsize c \/ EngineLimit.single (d_active d)) /\
+  (forall i f, In (i, f) (d_older d) -> lf_size f <= c_fsize c \/ EngineLimit.single f).
+Proof. exact EngineLimit.limit_from_empty. Qed.
+Print Assumptions C17_data_files_respect_the_size_limit.
+
+(* the estimate covers the growth of the file, for every writer position and every record *)
+Theorem C17_estimate_covers_every_append :
+  forall io nm fid f r f' p evs, EngineLimit.rec_small r -> lf_append io nm fid f r = (f', p, evs) ->
+  lf_size f <= lf_size f' /\ lf_size f' <= lf_size f + disk_size_estimate (len (r_key r)) (len (r_value r)).
+Proof.
+  intros io nm fid f r f' p evs Hs Ha. destruct (EngineLimit.lf_append_growth _ _ _ _ _ _ _ _ Hs Ha) as (A & B & _).
+  split; [exact A|exact B].
+Qed.
+Print Assumptions C17_estimate_covers_every_append.
+
+(* non-vacuity: with a limit of 64 bytes a 100-byte value sits alone in its file (which exceeds the limit), the
+   files around it respect the limit, and a batch whose single record exceeds the limit shares its file with
+   nothing but its sealing record *)
+Example C17_limit_nonvacuous :
+  let c := mkCfg 64 0 0 0 in
+  let ops := [OpPut [107] [1; 2; 3]; OpPut [108] (repeat 7 100); OpPut [109] [4]; OpBatch false 9 [BPut [97] (repeat 8 90)]; OpPut [110] [5]] in
+  Forall EngineLimit.op_small ops /\
+  match db_open c empty_disk with
+  | (OpenOk d0 k0, _) =>
+    let '((d, _), _, _) := run (d0, k0) ops in
+    map (fun x => (lf_size (snd x) <=? 64, length (lf_recs (snd x)))) (d_older d) = [(true, 1%nat); (false, 1%nat); (true, 1%nat); (true, 0%nat); (false, 2%nat)]
+  | _ => False
+  end.
+Proof.
+  split.
+  - repeat constructor; unfold EngineLimit.kv_small, EngineLimit.kv_max; vm_compute; try discriminate; try reflexivity.
+  - vm_compute. reflexivity.
+Qed.
 
 Example C17_nonvacuous :
   let ops := [OpPut [107] [1; 2; 3]; OpPut [107] [4]; OpDel [107]; OpBatch false 9 [BPut [97] [5]; BDel [97]]; OpRestart (mkCfg 64 0 0 0); OpStat] in
